@@ -24,6 +24,7 @@ theorem mergeInner_coherent (r : Ret) (n : Nat) (h : InnerOK r) : Coherent (merg
       unfold Coherent at hc; rw [he] at hc; simp [isFatal] at hc; exact hc
     simp only [this]; exact finish_coherent (n + k)
   | plain => simp [Coherent, isFatal]
+  | nonFatalErrorsPtr k => simp [Coherent, isFatal]
   | errorsPtr fs => exact absurd he (hne fs)
 
 theorem innerAllR_coherent : ∀ (rs : List Ret) (n : Nat), (∀ r ∈ rs, InnerOK r) → Coherent (innerAllR rs n)
@@ -36,6 +37,7 @@ theorem innerAllR_coherent : ∀ (rs : List Ret) (n : Nat), (∀ r ∈ rs, Inner
     | nil => exact innerAllR_coherent rs n hrs
     | nonFatalErrors k => exact innerAllR_coherent rs (n + k) hrs
     | plain => simp [Coherent, isFatal]
+    | nonFatalErrorsPtr k => simp [Coherent, isFatal]
     | errorsPtr fs => exact absurd he (hr.2 fs)
 
 
